@@ -324,6 +324,7 @@ func c17migrate(c *wk.Ctx, idx int, r *rand.Rand, configured bool, inflight int)
 	dc := 2 + r.Intn(4)
 	migrateCode := []int32{303, 303, 400, 420, 500, 406}[r.Intn(6)]
 	var migrated sync.Map // uid -> true once refused by dc1
+	var toMigrate sync.Map // uids dc1 refuses
 	var e *rpcEnv
 	var srv2 *refserver.Server
 	var err error
@@ -336,7 +337,7 @@ func c17migrate(c *wk.Ctx, idx int, r *rand.Rand, configured bool, inflight int)
 		if h {
 			return false
 		}
-		if p.kind == "object" {
+		if _, refuse := toMigrate.Load(p.uid); refuse {
 			// dc1 refuses: this account lives in another data centre
 			migrated.Store(p.uid, true)
 			b := refserver.RPCResult(p.msgID, refserver.RPCError(migrateCode, fmt.Sprintf("PHONE_MIGRATE_%d", dc)))
@@ -385,9 +386,15 @@ func c17migrate(c *wk.Ctx, idx int, r *rand.Rand, configured bool, inflight int)
 			return
 		}
 	}
-	uid := uidFor(r, "object", used)
+	// the refused request is of any result kind: an object, a Bool, or a vector (decoded with the caller's hints)
+	migKind := rpcKinds[r.Intn(len(rpcKinds))]
+	if idx%2 == 0 {
+		migKind = "object"
+	}
+	uid := uidFor(r, migKind, used)
+	toMigrate.Store(uid, true)
 	var rec callRec
-	if !withTimeout(40*time.Second, func() { rec = e.doCall(0, uid, "object", false) }) {
+	if !withTimeout(40*time.Second, func() { rec = e.doCall(0, uid, migKind, r.Intn(2) == 0) }) {
 		if st, dump := isStalled(); st {
 			c.Viol("C17", idx, fmt.Sprintf("e2e/migrate-stall/configured=%v", configured), "the migrating request never returned and nothing can move", dump)
 		} else {
@@ -407,7 +414,8 @@ func c17migrate(c *wk.Ctx, idx int, r *rand.Rand, configured bool, inflight int)
 		c.Viol("C17", idx, "e2e/migrate-unconfigured-not-error", fmt.Sprintf("PHONE_MIGRATE_%d with DC %d NOT configured: err=%q, arrivals at the other server %d", dc, dc, rec.Err, at2), nil)
 	}
 	c.Count(fmt.Sprintf("e2e.migrations.configured=%v", configured), 1)
-	c.Distinct("migrate", configured, inflight, dc)
+	c.Distinct("migrate", configured, inflight, dc, migKind)
+	c.Count("e2e.migrations.kind="+migKind, 1)
 	if idx%3 == 0 {
 		c.Sample(map[string]interface{}{"path": "PHONE_MIGRATE_X", "configured": configured, "dc": dc, "calls_before": inflight})
 	}
